@@ -33,6 +33,7 @@ static COUNT: AtomicUsize = AtomicUsize::new(0);
 static FAILED: AtomicUsize = AtomicUsize::new(0);
 static GUARDED_TOTAL: AtomicUsize = AtomicUsize::new(0);
 static LIVE: AtomicUsize = AtomicUsize::new(0);
+static TAPE_GROWTHS: AtomicUsize = AtomicUsize::new(0);
 
 const PAGE: usize = 4096;
 const SLOTS: usize = 8192;
@@ -65,6 +66,17 @@ pub fn armed_count() -> usize {
 /// Number of requests answered with null since `arm`.
 pub fn failed_count() -> usize {
     FAILED.load(SeqCst)
+}
+
+/// Number of tape (re)allocations (hook IN_TAPE_GROWTH) since the process started, while armed.
+pub fn tape_growths() -> usize {
+    TAPE_GROWTHS.load(SeqCst)
+}
+
+fn note_growth() {
+    if ARMED.load(SeqCst) && hpbf::verif::IN_TAPE_GROWTH.load(SeqCst) {
+        TAPE_GROWTHS.fetch_add(1, SeqCst);
+    }
 }
 
 pub fn guarded_total() -> usize {
@@ -128,6 +140,7 @@ unsafe fn guard_free(ptr: *mut u8) -> bool {
 
 unsafe impl GlobalAlloc for VAlloc {
     unsafe fn alloc(&self, layout: Layout) -> *mut u8 {
+        note_growth();
         if ARMED.load(SeqCst) {
             match MODE.load(SeqCst) {
                 GUARD_LEFT => return guard_alloc(layout, false),
@@ -160,6 +173,7 @@ unsafe impl GlobalAlloc for VAlloc {
             // guarded regions come zeroed from mmap
             return p;
         }
+        note_growth();
         System.alloc_zeroed(layout)
     }
 
